@@ -83,3 +83,6 @@ Print Assumptions C19_decompress_receiver_value.
 Print Assumptions C19_verdict.
 Print Assumptions C19_receiver_is_result.
 Print Assumptions C19_mul_loop_receiver_value.
+Print Assumptions C19_fields.
+Print Assumptions C19_set_receiver_value.
+Print Assumptions C19_sig_decompress_receiver_value.
